@@ -1,6 +1,10 @@
 package proto
 
-import "github.com/cloudwego/dynamicgo/internal/util"
+import (
+	"unsafe"
+
+	"github.com/cloudwego/dynamicgo/internal/util"
+)
 
 type TypeDescriptor struct {
 	baseId FieldNumber // for LIST/MAP to write field tag by baseId
@@ -117,6 +121,27 @@ type MessageDescriptor struct {
 	name   string
 	ids    util.FieldIDMap
 	names  util.FieldNameMap // store name and jsonName for FieldDescriptor
+	// bigIds holds the fields whose number is too large for the dense table ids
+	// (field numbers go up to 2^29-1, where the dense table would need gigabytes)
+	bigIds map[FieldNumber]*FieldDescriptor
+	count  int
+}
+
+// maxDenseFieldNumber is the largest field number stored in the dense table
+const maxDenseFieldNumber = 1<<16 - 1
+
+func (m *MessageDescriptor) setField(id FieldNumber, f *FieldDescriptor) {
+	if m.ByNumber(id) == nil {
+		m.count++
+	}
+	if id > maxDenseFieldNumber {
+		if m.bigIds == nil {
+			m.bigIds = make(map[FieldNumber]*FieldDescriptor)
+		}
+		m.bigIds[id] = f
+		return
+	}
+	m.ids.Set(int32(id), unsafe.Pointer(f))
 }
 
 func (m *MessageDescriptor) Name() string {
@@ -132,11 +157,14 @@ func (m *MessageDescriptor) ByName(name string) *FieldDescriptor {
 }
 
 func (m *MessageDescriptor) ByNumber(id FieldNumber) *FieldDescriptor {
+	if id > maxDenseFieldNumber {
+		return m.bigIds[id]
+	}
 	return (*FieldDescriptor)(m.ids.Get(int32(id)))
 }
 
 func (m *MessageDescriptor) FieldsCount() int {
-	return m.ids.Size() - 1
+	return m.count
 }
 
 type MethodDescriptor struct {
